@@ -50,6 +50,10 @@ BRANCH_TIMEOUT_MS = 2000
 # quick budget cannot hold; the per-harness watchdog (cli.HARD_LIMIT_S) still bounds the time.
 MAX_PATHS = int(os.environ.get('PYVC_MAX_PATHS', '6000' if TIER == 'quick' else '250000'))
 CVC5 = '/usr/bin/cvc5'
+# wall-clock budget of ONE path of a harness: a path that needs longer (an edit that turns a structural parse into a search over
+# symbolic offsets, say) ends UNDECIDED and the other paths of the harness are still explored and reported
+HARNESS_LIMIT_S = float(os.environ.get('PYVC_HARNESS_LIMIT_S', '300' if TIER == 'quick' else '1700'))
+PATH_LIMIT_S = float(os.environ.get('PYVC_PATH_LIMIT_S', '90' if TIER == 'quick' else '600'))
 
 
 def _mk_solver(timeout_ms):
@@ -81,26 +85,42 @@ def _cvc5_export(smt2):
     return '(set-logic ALL)\n' + decls + txt
 
 
-class _Cvc5Job(object):
-    """The cvc5 CLI on an SMT-LIB2 benchmark produced by z3, started in the background; result() waits for it (at most its
-    own time limit) and returns ('sat'|'unsat'|'unknown', detail)."""
+Z3_OLD = '/usr/bin/z3'
 
-    def __init__(self, smt2, timeout_ms):
-        txt = _cvc5_export(smt2)
-        if '(check-sat)' not in txt:
-            txt += '\n(check-sat)\n'
+
+def _oldz3_export(smt2):
+    """z3 5.1's export made readable for the Debian z3 4.8.12 CLI (an independent build of the same solver family whose sequence
+    procedure decides some extract/concat queries at once on which 5.1 wanders): only the SMT-LIB 2.7 conversion names differ."""
+    return smt2.replace('(_ int_to_bv ', '(_ int2bv ').replace('(ubv_to_int ', '(bv2nat ')
+
+
+def _cvc5_text(smt2):
+    import re
+    txt = _cvc5_export(smt2)
+    # z3 prints a one-literal pseudo-boolean equality for some simplified tests: ((_ pbeq 0 1) x) is "x is false", ((_ pbeq 1 1) x) is x
+    txt = re.sub(r'\(\(_ pbeq 0 1\) ([^()\s]+)\)', r'(not \1)', txt)
+    txt = re.sub(r'\(\(_ pbeq 1 1\) ([^()\s]+)\)', r'\1', txt)
+    return txt
+
+
+class _CliJob(object):
+    """An external solver on an SMT-LIB2 benchmark produced by z3, started in the background; poll() is non-blocking, result() waits for
+    it (at most its own time limit); both return ('sat'|'unsat'|'unknown', detail) (poll: None while running)."""
+
+    def __init__(self, name, argv, text, timeout_ms):
+        self.name = name
         self.timeout_ms = timeout_ms
         self.proc = None
         self.path = None
+        self.done = None
+        self.t0 = time.time()
         try:
             fd, self.path = tempfile.mkstemp(suffix='.smt2', dir=os.environ.get('VERIF_SCRATCH', '/dev/shm'))
             with os.fdopen(fd, 'w') as f:
-                f.write(txt)
-            self.proc = subprocess.Popen([CVC5, '--lang=smt2', '--strings-exp', '--tlimit=%d' % timeout_ms, self.path],
-                                         stdout=subprocess.PIPE, stderr=subprocess.PIPE, text=True)
-            self.err = ''
+                f.write(text if '(check-sat)' in text else text + '\n(check-sat)\n')
+            self.proc = subprocess.Popen(argv + [self.path], stdout=subprocess.PIPE, stderr=subprocess.PIPE, text=True)
         except OSError as e:
-            self.err = 'cvc5: not started (%s)' % e
+            self.done = ('unknown', '%s: not started (%s)' % (name, e))
             self._cleanup()
 
     def _cleanup(self):
@@ -111,20 +131,39 @@ class _Cvc5Job(object):
                 pass
             self.path = None
 
-    def result(self):
-        if self.proc is None:
-            return 'unknown', self.err
-        try:
-            out, err = self.proc.communicate(timeout=self.timeout_ms / 1000.0 + 5)
-        except subprocess.TimeoutExpired:
-            self.cancel()
-            return 'unknown', 'cvc5: timeout'
+    def _finish(self, out, err):
         self.proc = None
         self._cleanup()
         lines = (out or '').strip().splitlines()
         if lines and lines[0] in ('sat', 'unsat'):
-            return lines[0], ''
-        return 'unknown', 'cvc5: ' + (((out or '') + (err or '')).strip().replace('\n', ' ')[:200] or 'no answer within its time limit')
+            self.done = (lines[0], '')
+        else:
+            self.done = ('unknown', self.name + ': ' + (((out or '') + (err or '')).strip().replace('\n', ' ')[:200] or 'no answer within its time limit'))
+        return self.done
+
+    def poll(self):
+        if self.done is not None:
+            return self.done
+        if self.proc.poll() is None:
+            if time.time() - self.t0 > self.timeout_ms / 1000.0 + 5:
+                self.cancel()
+                self.done = ('unknown', self.name + ': timeout')
+                return self.done
+            return None
+        out, err = self.proc.communicate()
+        return self._finish(out, err)
+
+    def result(self):
+        if self.done is not None:
+            return self.done
+        try:
+            left = max(0.1, self.timeout_ms / 1000.0 + 5 - (time.time() - self.t0))
+            out, err = self.proc.communicate(timeout=left)
+        except subprocess.TimeoutExpired:
+            self.cancel()
+            self.done = ('unknown', self.name + ': timeout')
+            return self.done
+        return self._finish(out, err)
 
     def cancel(self):
         if self.proc is not None:
@@ -137,15 +176,26 @@ class _Cvc5Job(object):
         self._cleanup()
 
 
+def _Cvc5Job(smt2, timeout_ms):
+    return _CliJob('cvc5', [CVC5, '--lang=smt2', '--strings-exp', '--tlimit=%d' % timeout_ms], _cvc5_text(smt2), timeout_ms)
+
+
+def _OldZ3Job(smt2, timeout_ms):
+    return _CliJob('z3-4.8', [Z3_OLD, '-T:%d' % max(1, timeout_ms // 1000)], _oldz3_export(smt2), timeout_ms)
+
+
 def _cvc5_check(smt2, timeout_ms):
     return _Cvc5Job(smt2, timeout_ms).result()
 
 
 RESEEDS = 2
+QUICK_FIRST_MS = 1500
 
 
-def _z3_reseeded(assertions, k, want_model, smt2):
-    """z3 on a copy of the assertions translated into a fresh context (new term numbering) with a different seed."""
+def _z3_reseeded(assertions, k, want_model, smt2, jobs=()):
+    """z3 on a copy of the assertions translated into a fresh context (new term numbering) with a different seed.  While it runs, a
+    watcher interrupts it as soon as one of the background CLI jobs has proved the query (`unsat`)."""
+    import threading
     seed0 = int(os.environ.get('VERIF_SEED', '0') or 0)
     c2 = z3.Context()
     s2 = z3.Solver(ctx=c2)
@@ -153,7 +203,30 @@ def _z3_reseeded(assertions, k, want_model, smt2):
     s2.set('random_seed', (seed0 + 7919 * k) % (2 ** 31))
     for c in assertions:
         s2.add(c.translate(c2))
-    r3 = s2.check()
+    stop = threading.Event()
+    proved = []
+
+    def watch():
+        while not stop.wait(0.05):
+            for j in jobs:
+                r = j.poll()
+                if r is not None and r[0] == 'unsat':
+                    proved.append(j.name)
+                    try:
+                        c2.interrupt()
+                    except Exception:
+                        pass
+                    return
+    th = None
+    if jobs:
+        th = threading.Thread(target=watch, daemon=True)
+        th.start()
+    try:
+        r3 = s2.check()
+    finally:
+        stop.set()
+        if th is not None:
+            th.join(1)
     if r3 == z3.unsat:
         return {'status': 'unsat', 'backend': 'z3-reseeded'}
     if r3 == z3.sat:
@@ -161,22 +234,24 @@ def _z3_reseeded(assertions, k, want_model, smt2):
         return {'status': 'sat', 'backend': 'z3-reseeded',
                 'model': want_model(m, lambda t: t.translate(c2)) if want_model else {},
                 'smt2': smt2, 'model_text': str(m)[:4000]}
+    if proved:
+        return {'status': 'unsat', 'backend': proved[0]}
     return {'status': 'unknown', 'reason': 'z3-reseeded#%d: %s' % (k, s2.reason_unknown())}
 
 
 def _solve(assertions, want_model=None):
     """Decide the conjunction of `assertions` with a portfolio, stopping at the first definite answer:
-         1. z3 in process (seed VERIF_SEED; FIRST_TIMEOUT_MS: a query z3 has lost its way on is better handed on early),
-         2. the cvc5 CLI on z3's SMT-LIB export (started in the background, full budget), while
-         3. z3 runs again on a copy of the assertions translated into a fresh context with another seed (full budget);
-         4. if both are still undecided, one more reseeded z3 run.
+         1. z3 5.1 in process (seed VERIF_SEED), a short first budget: a query z3 answers at all it nearly always answers in milliseconds;
+         2. on `unknown`, in the background on z3's SMT-LIB export: the cvc5 1.0.3 CLI and the Debian z3 4.8.12 CLI (full budget), while
+         3. z3 5.1 runs again on a copy of the assertions translated into a fresh context with another seed (full budget; interrupted
+            as soon as a background solver reports `unsat`);
+         4. if all are still undecided, one more reseeded z3 run.
     z3's nonlinear-integer and sequence procedures are heuristic: the same valid query is proved in 0.1 s or runs past any
-    time limit depending on the seed, term numbering and machine load (observed on the varint loop-invariant step), and
-    cvc5 is quick on some of those and slow on others.  Any back end's `unsat` is a proof and any back end's `sat` comes
-    with a model that is replayed natively before it is believed, so trying more than one is sound in both directions;
-    `unknown` is returned only when all of them give up.
+    time limit depending on the seed, term numbering, solver version and machine load.  Any back end's `unsat` is a proof and a `sat`
+    is only believed with a model that replays natively, so trying more than one is sound in both directions; `unknown` is returned
+    only when all of them give up.
     Returns a dict: status, backend, reason, smt2, and for sat: model (via want_model(model, translate)) and model_text."""
-    s = _mk_solver(FIRST_TIMEOUT_MS)
+    s = _mk_solver(min(QUICK_FIRST_MS, FIRST_TIMEOUT_MS))
     for c in assertions:
         s.add(c)
     r = s.check()
@@ -191,27 +266,32 @@ def _solve(assertions, want_model=None):
     if os.environ.get('PYVC_DUMP_UNKNOWN'):
         with open(os.path.join(os.environ['PYVC_DUMP_UNKNOWN'], 'unk_%d_%d.smt2' % (os.getpid(), int(time.time() * 1000))), 'w') as f:
             f.write(smt2)
-    job = _Cvc5Job(smt2, QUERY_TIMEOUT_MS)
+    jobs = [_Cvc5Job(smt2, QUERY_TIMEOUT_MS), _OldZ3Job(smt2, QUERY_TIMEOUT_MS)]
+    cli_sat = None
     try:
-        r3 = _z3_reseeded(assertions, 1, want_model, smt2)
+        r3 = _z3_reseeded(assertions, 1, want_model, smt2, jobs)
         if r3['status'] != 'unknown':
             return r3
         reasons.append(r3['reason'])
-        r2, why = job.result()
+        for j in jobs:
+            r2, why = j.result()
+            if r2 == 'unsat':
+                return {'status': 'unsat', 'backend': j.name}
+            if r2 == 'sat':
+                cli_sat = j.name
+            reasons.append(why or '%s: sat (no model extracted)' % j.name)
     finally:
-        job.cancel()
-    if r2 == 'unsat':
-        return {'status': 'unsat', 'backend': 'cvc5'}
-    reasons.append(why or 'cvc5: sat (no model extracted)')
+        for j in jobs:
+            j.cancel()
     for k in range(2, RESEEDS + 1):
         r3 = _z3_reseeded(assertions, k, want_model, smt2)
         if r3['status'] != 'unknown':
             return r3
         reasons.append(r3['reason'])
-    if r2 == 'sat':
-        return {'status': 'sat', 'backend': 'cvc5', 'model': {}, 'smt2': smt2,
-                'model_text': '(cvc5 reported sat; no model extracted)'}
-    return {'status': 'unknown', 'backend': 'z3+cvc5', 'reason': '; '.join(reasons), 'smt2': smt2}
+    if cli_sat:
+        return {'status': 'sat', 'backend': cli_sat, 'model': {}, 'smt2': smt2,
+                'model_text': '(%s reported sat; no model extracted)' % cli_sat}
+    return {'status': 'unknown', 'backend': 'z3+cvc5+z3-4.8', 'reason': '; '.join(reasons), 'smt2': smt2}
 
 
 class Ctx(object):
@@ -231,6 +311,11 @@ class Ctx(object):
         self.stubs = run.stubs
         self.ghost = {}
         self.float_overflow_nondet = False   # E-FLOAT: int->float conversion in int*float may raise OverflowError
+        self.t0 = time.time()
+
+    def _budget(self):
+        if time.time() - self.t0 > PATH_LIMIT_S:
+            raise Undecided('path time budget of %d s exceeded (decisions %s)' % (PATH_LIMIT_S, ''.join('T' if d else 'F' for d in self.decisions[:self.pos])))
 
     # -- naming ------------------------------------------------------------
     def fresh_name(self, base):
@@ -244,6 +329,7 @@ class Ctx(object):
         return r != z3.unsat
 
     def branch(self, cond):
+        self._budget()
         cond = z3.simplify(cond)
         if z3.is_true(cond):
             return True
@@ -291,6 +377,7 @@ class Ctx(object):
     # -- obligations -------------------------------------------------------
     def check(self, name, cond, expect_fail=False, note=None):
         """Obligation: on this path, pc => cond.  Afterwards cond is assumed."""
+        self._budget()
         t0 = time.time()
         if isinstance(cond, bool):
             condt = z3.BoolVal(cond)
@@ -511,6 +598,10 @@ class Run(object):
         while self.work:
             if self.paths >= MAX_PATHS:
                 self.undecided.append('path budget %d exceeded' % MAX_PATHS)
+                break
+            if time.time() - t0 > HARNESS_LIMIT_S:
+                # stop early enough to report what was explored (the driver kills a harness process at its hard limit and then nothing is reported)
+                self.undecided.append('harness time budget of %d s exceeded after %d paths' % (HARNESS_LIMIT_S, self.paths))
                 break
             decisions = self.work.pop()
             # contracts registered by the harness (stubs, loop specs, expression hooks) are per path
